@@ -42,7 +42,7 @@ META = {
    design="6/C09"),
  "C10": dict(
    technique="Hypothesis generation of trajectories; round trip exporter -> file -> TrajectoryParser compared by the library's == and by independently read text",
-   text="Generated (domain, problem, plan) -> triplets -> exported file -> Observation with and without the problem's object table: one component per action, same calls, same states (== both ways and text read-back), chained.",
+   text="Generated (domain, problem, plan) -> triplets -> exported file -> Observation with and without the problem's object table: one component per action, same calls, same states (== both ways and text read-back), chained; the shipped single-agent trajectory files are parsed and compared with an independent reading of the same text.",
    note="Deduced-objects mode only when every object occurs in the first state (documented precondition).",
    design="6/C10"),
  "C12": dict(
@@ -68,8 +68,8 @@ META = {
    design="6/C18"),
 
  "C07": dict(
-   technique="history (operation-sequence) generation with per-step invariants in the style of a rule-based state machine; canonical digests of every live object after every call",
-   text="Generated histories of up to 30/60 API calls (parse, ground, applicability, apply with every flag combination, re-apply pooled operators to earlier and later states, print, export, trajectory export, combine agent domains, fresh Domain()) over pools of domains, states and operators; after every call the digest (read-back through public attributes + exported/serialized text) of every pooled domain and state and of the module-level type table is unchanged and repeated queries return the recorded answers.",
+   technique="history (operation-sequence) generation with per-step invariants in the style of a rule-based state machine; canonical digests of every live object after every call; deterministic two-thread line-level scheduler for interleavings",
+   text="Generated histories of up to 30/60 API calls (parse, ground, applicability, apply with every flag combination, re-apply pooled operators to earlier and later states, print, export, trajectory export, combine agent domains, fresh Domain()) over pools of domains, states and operators; after every call the digest (read-back through public attributes + exported/serialized text) of every pooled domain and state and of the module-level type table is unchanged and repeated queries return the recorded answers.  A second stream runs two operations (apply / applicability / export / print) on one shared domain under a deterministic scheduler whose switch points are part of the case: each must return what it returns alone and the domain digest must not change.",
    note="Module-level library state is reset at the top of every case. Probes whose effects conflict are only checked for purity, not for repeatability.",
    design="6/C07"),
  "C08": dict(
